@@ -530,6 +530,63 @@ for _k in ASYNC_TWINS:
     DETAIL["c19_async_" + _k] = _mk_detail(_k, True)
     CONDITIONS.append({"fn": "c19_async_" + _k, "quick": 30 if _k in ("nested_for", "inc_once") else None, "thorough": 90, "twin": 25})
 
+# ---- the shared corpus: whatever a render of a member evaluates, applies or renders is in the member's static analysis ----
+from harness import corpus as _corpus  # noqa: E402
+
+_CENV = _corpus.make_env(Env)
+for _n in ("p", "q"):
+    SRC2NAME[_corpus.PARTIALS[_n]] = _n
+    _scan(_n, _corpus.PARTIALS[_n])
+    ASSIGNED_IN[_n] = _assigned_in(_n)
+_C_AN = {}
+
+
+def _corpus_check(w2, w1, leaf, d):
+    t = _corpus.template(_CENV, w2, w1, leaf)
+    if t is None:
+        return None
+    src = _corpus.source(w2, w1, leaf)
+    key = (w2, w1, leaf)
+    if key not in _C_AN:
+        name = "corpus-%d-%d-%d" % key
+        SRC2NAME[src] = name
+        _scan(name, src)
+        ASSIGNED_IN[name] = _assigned_in(name)
+        try:
+            _C_AN[key] = (t.analyze(), drive(t.analyze_async()))
+        except Exception as e:
+            _C_AN[key] = ("analysis raised " + type(e).__name__, None)
+    an, an_async = _C_AN[key]
+    if an_async is None:
+        return an
+    bad = []
+    for a, use_async in ((an, False), (an_async, True)):
+        del TRACE[:]
+        del STACK[:]
+        try:
+            if use_async:
+                drive(t.render_async(**_corpus.data(d)))
+            else:
+                t.render(**_corpus.data(d))
+        except Exception:
+            pass
+        del STACK[:]
+        r = check_trace(a, list(TRACE))
+        if r is not None:
+            bad.append(("async" if use_async else "sync", r[0], repr(r[1])[:200]))
+    return bad or None
+
+
+def _corpus_skip(w2, w1, leaf):
+    # a macro DEFINED inside a with block that binds x: the macro body is isolated at run time (its x is the render argument)
+    # but lies, in the source, inside a block binding x - a reference the statement exempts; the oracle cannot tell
+    return w2 == 4 and w1 == 12
+
+
+c19_corpus, _det = _corpus.mk_condition("c19_corpus", _corpus_check, _corpus_skip)
+DETAIL["c19_corpus"] = _det
+CONDITIONS.append({"fn": "c19_corpus", "quick": 120, "thorough": 240, "sel_only": True, "bounds": _corpus.BOUNDS})
+
 ASSUMPTIONS = [
     "template and partial sources are the concrete skeletons listed in harness/c19.py; render data: two branch flags, a selector int 0..3, two list lengths 0..2 and presence of the optional keys x and y are symbolic, other values fixed",
     "analysis = BoundTemplate.analyze() with include_partials=True, computed once per skeleton at import",
